@@ -57,7 +57,31 @@ type decoders05 struct {
 	dm *dmdec.Decoder
 }
 
-func newDecoders05() *decoders05 { return &decoders05{qrdec.NewDecoder(), dmdec.NewDecoder()} }
+func newDecoders05() *decoders05 { return &decoders05{qr: qrdec.NewDecoder(), dm: dmdec.NewDecoder()} }
+
+// what the long-lived decoders returned last, with private copies: a result
+// handed to the caller must stay what it was
+var held05 struct {
+	res  *common.DecoderResult
+	text string
+	raw  []byte
+}
+var stale05 string
+
+func hold05(res *common.DecoderResult) {
+	if sharedDec == nil {
+		held05.res = nil
+		return
+	}
+	if h := held05.res; h != nil && (h.GetText() != held05.text || !bytes.Equal(h.GetRawBytes(), held05.raw)) {
+		stale05 = fmt.Sprintf("the result a long-lived decoder returned earlier showed %q then and shows %q after a later decode", trunc(held05.text), trunc(h.GetText()))
+	}
+	held05.res = res
+	if res != nil {
+		held05.text = string(append([]byte(nil), res.GetText()...))
+		held05.raw = append([]byte(nil), res.GetRawBytes()...)
+	}
+}
 
 var libLevels = []qrdec.ErrorCorrectionLevel{qrdec.ErrorCorrectionLevel_L, qrdec.ErrorCorrectionLevel_M, qrdec.ErrorCorrectionLevel_Q, qrdec.ErrorCorrectionLevel_H}
 
@@ -129,6 +153,7 @@ func (s *symbol05) decode(m [][]bool) (d decoded) {
 			d.err = fmt.Errorf("nil result and nil error")
 			return
 		}
+		hold05(res)
 		return decoded{text: res.GetText(), raw: res.GetRawBytes(), ec: res.GetECLevel()}
 	}
 	dd := dmdec.NewDecoder()
@@ -150,6 +175,7 @@ func (s *symbol05) decode(m [][]bool) (d decoded) {
 		d.err = fmt.Errorf("nil result and nil error")
 		return
 	}
+	hold05(res)
 	return decoded{text: res.GetText(), raw: res.GetRawBytes(), ec: res.GetECLevel()}
 }
 
@@ -497,6 +523,11 @@ func (s *symbol05) check(faults []Fault05, probe func(string)) *fail {
 	}
 	d := s.decode(m)
 	what := fmt.Sprintf("%s with %d within-budget faults", s.describe(), n)
+	if stale05 != "" {
+		msg := stale05
+		stale05 = ""
+		return &fail{"fault/result-changes-later", what + ": " + msg}
+	}
 	switch {
 	case d.pan != nil:
 		return &fail{"fault/panic", fmt.Sprintf("%s: decoder panicked: %v", what, d.pan)}
@@ -730,6 +761,7 @@ func execChain05(tr *Trace05, probe func(string)) (string, *fail) {
 		return exec05(tr, probe)
 	}
 	sharedDec = newDecoders05()
+	held05.res, stale05 = nil, ""
 	for _, p := range tr.Prev {
 		q := *p
 		q.Prev = nil
@@ -941,6 +973,7 @@ func C05() *kit.Spec {
 				// one long-lived decoder pair fed a chain of damaged symbols of
 				// different shapes (so block lengths and EC counts change between calls)
 				sharedDec = newDecoders05()
+				held05.res, stale05 = nil, ""
 				defer func() { sharedDec = nil }()
 				var hist []*Trace05
 				n := r.Range(3, 8)
